@@ -1,9 +1,168 @@
-(* C03 — A read at a revision returns exactly the MVCC snapshot at that revision. (theorems added below as proofs land) *)
-From KB Require Import Model.ReadSys Model.C03Cases.
+(* C03 — A read at a revision returns exactly the MVCC snapshot at that revision.
+   Property theorems only: each is closed by `exact <lemma>` (or a vm_compute witness) and followed by
+   Print Assumptions.  Model: Model/ReadSys.v (transcribed from range.go, scanner.go, receiver.go).
+   Version stores: lists of (key, revision, value) strictly ascending in (key, revision) — the engine
+   order of the encoded keys by C10 — over the key alphabet; revision 0 = index record.
+   Client level: value = Some v (written) | None (deleted); engine level: the marker "tombstone" stands for None. *)
+From KB Require Import Base.Cases Model.Coder Model.ReadSys Model.C03Cases
+  Proofs.Coder Proofs.ReadSys Proofs.ReadSysSnap Proofs.ReadSysThm Proofs.ReadSysSpec.
 Local Open Scope N_scope.
 
-(* finding C03-F1: a created value equal to the reserved marker is not read back *)
+(* point read: Get(k, rv) returns the newest version <= rv of k (rv = 0: the newest stored version) unless it is a deletion *)
+Theorem C03_get : forall (Vs : list (@vrec (option bytes))) cur k rv,
+  wf_store Vs -> no_marker Vs -> alpha k -> rv < two64 ->
+  get_model (raw_of (enc_store Vs)) cur k rv =
+  match find_key k (snapshot_spec Vs (if rv =? 0 then max_u64 else rv)) with
+  | Some (v, r) => GetResp (N.max cur r) (Some (v, r))
+  | None => GetResp cur None
+  end.
+Proof. exact c03_get. Qed.
+Print Assumptions C03_get.
+
+(* range read with and without limit: the in-range snapshot, cut at the limit, `more` iff it was cut *)
+Theorem C03_range : forall (Vs : list (@vrec (option bytes))) fv cur a b rev (limit : Z),
+  wf_store Vs -> no_marker Vs -> alpha a -> alpha b -> bcmp a b = Lt ->
+  floor_check fv (eff rev cur) = FOk -> (0 <= limit < max_i64)%Z ->
+  let S := in_range a b (snapshot_spec Vs (eff rev cur)) in
+  list_model (raw_of (enc_store Vs)) fv single_part cur a b rev limit =
+  if (0 <? limit)%Z then LResp cur (firstn (Z.to_nat limit) S) (limit <? Z.of_nat (length S))%Z
+  else LResp cur S false.
+Proof. exact c03_range. Qed.
+Print Assumptions C03_range.
+
+Theorem C03_count : forall (Vs : list (@vrec (option bytes))) fv cur a b,
+  wf_store Vs -> no_marker Vs -> alpha a -> alpha b -> bcmp a b = Lt -> floor_check fv cur = FOk ->
+  count_model (raw_of (enc_store Vs)) fv single_part true cur a b =
+  CResp cur (N.of_nat (length (in_range a b (snapshot_spec Vs cur)))).
+Proof. exact c03_count. Qed.
+Print Assumptions C03_count.
+
+(* the worker loop itself: on any sorted store its output is the snapshot (engine level) *)
+Theorem C03_worker_snapshot : forall R (V : list (@vrec bytes)), StronglySorted vr_lt V -> wrun_top R V = snapshot V R.
+Proof. exact wrun_top_snapshot. Qed.
+Print Assumptions C03_worker_snapshot.
+
+Theorem C03_worker_run : forall R (V : list (@vrec bytes)) rc, recs_ok V -> unlimited rc ->
+  worker_run R (raw_of V) rc = WROk (N.of_nat (length (wrun_top R V))) (rcv_flush (appends (rcv_reset rc) (wrun_top R V))).
+Proof. exact worker_run_unlimited. Qed.
+Print Assumptions C03_worker_run.
+
+Theorem C03_worker_run_limited : forall R (V : list (@vrec bytes)) (l : Z) res0, (0 < l)%Z -> recs_ok V ->
+  exists n rc, worker_run R (raw_of V) (RCommon l res0) = WROk n rc /\ rcv_result rc = firstn (Z.to_nat l) (wrun_top R V).
+Proof. exact worker_run_limited. Qed.
+Print Assumptions C03_worker_run_limited.
+
+(* the same answers whenever asked again: later versions (revision > R) and what a compaction at a
+   floor <= R removes (ReadSys.compacted) do not change Get / List / Count at R *)
+Theorem C03_snapshot_stable : forall (V V' : list (@vrec bytes)) R,
+  wf_store V -> wf_store V' -> later_state V V' R -> snapshot V' R = snapshot V R.
+Proof. exact snapshot_later. Qed.
+Print Assumptions C03_snapshot_stable.
+
+Theorem C03_stable : forall (V V' : list (@vrec bytes)) R,
+  wf_store V -> wf_store V' -> later_state V V' R -> 0 < R -> R < two64 ->
+  forall fv fv' cur cur' a b (limit : Z) k,
+    alpha a -> alpha b -> bcmp a b = Lt -> alpha k ->
+    floor_check fv R = FOk -> floor_check fv' R = FOk -> (0 <= limit < max_i64)%Z ->
+    list_payload (list_model (raw_of V') fv' single_part cur' a b R limit) = list_payload (list_model (raw_of V) fv single_part cur a b R limit)
+    /\ get_payload (get_model (raw_of V') cur' k R) = get_payload (get_model (raw_of V) cur k R)
+    /\ count_payload (count_model (raw_of V') fv' single_part true R a b) = count_payload (count_model (raw_of V) fv single_part true R a b).
+Proof. exact c03_stable. Qed.
+Print Assumptions C03_stable.
+
+(* with no live value equal to the marker, the engine-level snapshot is the client-level one *)
+Theorem C03_snapshot_client : forall (Vs : list (@vrec (option bytes))) R, no_marker Vs -> snapshot (enc_store Vs) R = snapshot_spec Vs R.
+Proof. exact snapshot_enc. Qed.
+Print Assumptions C03_snapshot_client.
+
+(* a written value is read back byte for byte — unless it equals the reserved marker *)
+Theorem C03_bytes : forall (V : list (@vrec bytes)) cur k r v R, wf_store V -> alpha k -> In (k, r, v) V -> 0 < r -> v <> tombstone ->
+  r <= R -> R < two64 -> (forall y, In y V -> vr_key y = k -> vr_rev y <= R -> vr_rev y <= r) ->
+  get_model (raw_of V) cur k R = GetResp (N.max cur r) (Some (v, r)).
+Proof. exact get_reads_back. Qed.
+Print Assumptions C03_bytes.
+
+(* ---------- findings ---------- *)
+Definition w_a : bytes := [47; 114; 47; 97].   (* "/r/a" *)
+Definition w_b : bytes := [47; 114; 47; 98].   (* "/r/b" *)
+
+Lemma w_store_wf {A} (x y : A) : wf_store [(w_a, 0, x); (w_a, 101, y)].
+Proof.
+  split.
+  - repeat constructor.
+  - repeat constructor; cbn; unfold two64; lia.
+Qed.
+
+(* finding C03-F1: Create(k, "tombstone") is acknowledged, the value is never read back *)
 Theorem C03_bytes_full_refuted :
-  exists k v r, v <> [] /\ get_model (raw_of (enc_store [(k, 0, Some (be64 r)); (k, r, Some v)])) r k r = GetResp r None.
-Proof. exists [47; 114; 47; 97], tombstone, 101. split; [discriminate|]. vm_compute. reflexivity. Qed.
+  exists (Vs : list (@vrec (option bytes))) k r v cur,
+    wf_store Vs /\ alpha k /\ In (k, r, Some v) Vs /\ 0 < r /\ v <> [] /\
+    (forall y, In y Vs -> vr_key y = k -> vr_rev y <= r) /\
+    get_model (raw_of (enc_store Vs)) cur k r = GetResp cur None /\
+    find_key k (snapshot_spec Vs r) = Some (v, r).
+Proof.
+  exists [(w_a, 0, Some (be64 101)); (w_a, 101, Some tombstone)], w_a, 101, tombstone, 101.
+  split; [apply w_store_wf|]. split; [repeat constructor|]. split; [right; left; reflexivity|].
+  split; [lia|]. split; [discriminate|]. split.
+  - intros y [<-|[<-|[]]] _; cbn; lia.
+  - split; vm_compute; reflexivity.
+Qed.
 Print Assumptions C03_bytes_full_refuted.
+
+(* finding C03-F2: a range bound outside the key alphabet (Kubernetes' continue key k ++ "\x00"):
+   the key below the start bound is returned *)
+Theorem C03_range_bounds_refuted :
+  exists (Vs : list (@vrec (option bytes))) a b cur,
+    wf_store Vs /\ no_marker Vs /\ bcmp a b = Lt /\ alpha b /\ ~ alpha a /\
+    in_range a b (snapshot_spec Vs cur) = [] /\
+    list_model (raw_of (enc_store Vs)) None single_part cur a b 0 0 = LResp cur [(w_a, [120], 101)] false.
+Proof.
+  exists [(w_a, 0, Some (be64 101)); (w_a, 101, Some [120])], (w_a ++ [0]), w_b, 101.
+  split; [apply w_store_wf|]. split; [repeat constructor; discriminate|]. split; [reflexivity|].
+  split; [repeat constructor|]. split.
+  - intros H. unfold alpha in H. rewrite Forall_forall in H. specialize (H 0 ltac:(cbn; tauto)). lia.
+  - split; vm_compute; reflexivity.
+Qed.
+Print Assumptions C03_range_bounds_refuted.
+
+(* ---------- non-vacuity ---------- *)
+Definition ex_store : list (@vrec (option bytes)) :=
+  [(w_a, 0, Some (be64 103)); (w_a, 101, Some [120]); (w_a, 103, Some [121]);
+   (w_a ++ [47; 98], 0, Some (be64 104 ++ [0])); (w_a ++ [47; 98], 102, Some [122]); (w_a ++ [47; 98], 104, None);
+   (w_b, 0, Some (be64 105)); (w_b, 105, Some [255])].
+
+Example C03_hypotheses_inhabited :
+  wf_store ex_store /\ no_marker ex_store /\ alpha w_a /\ alpha w_b /\ bcmp w_a w_b = Lt /\ floor_check (Some (be64 102)) (eff 103 105) = FOk.
+Proof.
+  split.
+  { split; [repeat constructor|]. repeat constructor; cbn; unfold two64; lia. }
+  split; [repeat constructor; discriminate|]. repeat split; repeat constructor.
+Qed.
+
+(* three keys, one deleted at 104: the snapshot at 103 has /r/a@103 and /r/a/b@102, at 105 /r/a and /r/b *)
+Example C03_example_snapshots :
+  snapshot_spec ex_store 103 = [(w_a, [121], 103); (w_a ++ [47; 98], [122], 102)] /\
+  snapshot_spec ex_store 105 = [(w_a, [121], 103); (w_b, [255], 105)] /\
+  list_model (raw_of (enc_store ex_store)) (Some (be64 102)) single_part 105 w_a w_b 103 1
+    = LResp 105 [(w_a, [121], 103)] true.
+Proof. repeat split; vm_compute; reflexivity. Qed.
+
+(* later_state is inhabited both ways: a version added above R, and a compaction at F <= R *)
+Definition ex_small : list (@vrec bytes) := [(w_a, 0, be64 103); (w_a, 101, [120]); (w_a, 103, [121])].
+
+Example C03_later_inhabited :
+  later_state ex_small (ex_small ++ [(w_b, 106, [1])]) 105 /\
+  later_state ex_small [(w_a, 0, be64 103); (w_a, 103, [121])] 103.
+Proof.
+  unfold ex_small. split.
+  - left. split.
+    + intros x Hx. apply in_or_app. left; exact Hx.
+    + intros x Hx. apply in_app_or in Hx as [Hx|[<-|[]]]; [left; exact Hx|right; unfold vr_rev; cbn [fst snd]; lia].
+  - right. exists 103. split; [|lia]. split; [|split].
+    + intros x [<-|[<-|[]]]; cbn; tauto.
+    + intros x [<-|[<-|[<-|[]]]] N; try (exfalso; apply N; cbn; tauto).
+      right. unfold vr_rev, vr_key, vr_val; cbn [fst snd]. split; [lia|]. right.
+      exists (w_a, 103, [121]). unfold vr_rev, vr_key; cbn [fst snd In]. repeat split; try lia. tauto.
+    + intros x y [<-|[<-|[<-|[]]]] Nx Px [<-|[<-|[<-|[]]]] Ky Py Lt N'; unfold vr_rev in *; cbn [fst snd] in *; try lia;
+        try (apply Nx; cbn; tauto).
+Qed.
